@@ -41,3 +41,21 @@ def encRtpgExt (h : Vals) (gs : List (Vals × List Vals)) : List Nat :=
   toBytes (4 + tpgBodyLen gs) 4 ++ rtpgExtHeader.enc h ++ (gs.map encTpg).flatten
 
 end Std
+
+namespace Std
+
+/-! ## MODE SENSE(6) / MODE SENSE(10) (SPC-4 7.5) -/
+
+/-- mode parameter list: header(6), block descriptors (BLOCK DESCRIPTOR LENGTH bytes), mode page -/
+def encModeSense6 (hv : Vals) (bd page : List Nat) : List Nat := modeHeader6.enc hv ++ bd ++ page
+
+/-- mode parameter list: header(10), block descriptors (BLOCK DESCRIPTOR LENGTH bytes), mode page -/
+def encModeSense10 (hv : Vals) (bd page : List Nat) : List Nat := modeHeader10.enc hv ++ bd ++ page
+
+/-- page_0 mode page format: PS / SPF (0) / PAGE CODE, PAGE LENGTH, mode parameters -/
+def encModePage0 (pv : Vals) (body : List Nat) : List Nat := modePage0Header.enc pv ++ body
+
+/-- sub_page mode page format: PS / SPF (1) / PAGE CODE, SUBPAGE CODE, PAGE LENGTH (2 bytes), mode parameters -/
+def encModeSubPage (pv : Vals) (body : List Nat) : List Nat := modeSubPageHeader.enc pv ++ body
+
+end Std
